@@ -5,3 +5,7 @@ package mpx
 import "github.com/basecomplextech/baselibrary/bin"
 
 func vtr(event string, id bin.Bin128, a, b int64) {}
+
+func vnew(ch *channel, id bin.Bin128) {}
+
+func vtrc(event string, ch *channel) {}
